@@ -30,6 +30,7 @@ use crate::graph;
 use crate::graph::Attributes;
 use crate::graph::Graph;
 use crate::graph::Value;
+use crate::parser::FULL_MATCH;
 use crate::variables::Globals;
 use crate::variables::MutVariables;
 use crate::variables::VariableMap;
@@ -192,7 +193,7 @@ impl ast::Stanza {
         let node = mat
             .nodes_for_capture_index(self.full_match_file_capture_index as u32)
             .next()
-            .expect("missing capture for full match");
+            .ok_or_else(|| ExecutionError::UndefinedCapture(format!("@{}", FULL_MATCH)))?;
         debug!("match {:?} at {}", node, self.range.start);
         trace!("{{");
         for statement in &self.statements {
@@ -274,7 +275,7 @@ impl ast::CreateGraphNode {
                 .mat
                 .nodes_for_capture_index(exec.full_match_file_capture_index as u32)
                 .next()
-                .expect("missing capture for full match");
+                .ok_or_else(|| ExecutionError::UndefinedCapture(format!("@{}", FULL_MATCH)))?;
             let syn_node = exec.graph.add_syntax_node(match_node);
             exec.graph[graph_node]
                 .attributes
